@@ -380,6 +380,14 @@ impl TryFrom<&mut Peekable<Lexer>> for ParserNode {
                         Type::UpperArith(inst) => {
                             let rd = lex.get_reg()?;
                             let mut imm = lex.get_imm()?;
+                            // The operand is the upper 20 bits of the result:
+                            // anything wider would be cut off by the shift.
+                            if !(0..=0xF_FFFF).contains(&imm.get().value()) {
+                                return Err(LexError::Expected(
+                                    vec![ExpectedType::Imm],
+                                    Box::new(imm.token().clone()),
+                                ));
+                            }
                             let new_imm = Imm::new(imm.get().value() << 12);
                             // shift left by 12
                             *imm.get_mut() = new_imm;
